@@ -166,6 +166,29 @@ def sqrt_battery(seed):
             cands.append((u, v))
     for _ in range(60):
         cands.append((rng.randrange(P), rng.randrange(P)))
+    # inputs for which the *intermediate* values of the computation (u*sqrt(-1), -u*sqrt(-1), u/v, the candidate root, v*r^2)
+    # have structured 51-bit limbs - an all-zero or all-ones limb, l0 within 19 of 0 or of 2^51: solve u from the target t
+    # (u = +-t, +-t*i, +-t/i, t*v, t^2*v ...), both for square and non-square ratios
+    M = 2**51 - 1
+    I = ref.SQRT_M1
+    Iinv = ref.inv(I)
+    ts = []
+    for l0 in (0, 1, 18, 19, 2**51 - 19, 2**51 - 18, 2**51 - 10, 2**51 - 1, rng.randrange(2**51)):
+        for pat in ("rand", "zero1", "zero2", "ones", "top"):
+            limbs = [l0] + [rng.randrange(2**51) for _ in range(4)]
+            if pat == "zero1":
+                limbs[1] = 0
+            elif pat == "zero2":
+                limbs[2] = limbs[3] = 0
+            elif pat == "ones":
+                limbs[1] = limbs[2] = limbs[3] = limbs[4] = M
+            elif pat == "top":
+                limbs[4] = M
+            ts.append(sum(l << (51 * i) for i, l in enumerate(limbs)) % P)
+    for t in ts:
+        for v in (1, 4, rng.randrange(1, P)):
+            for u in (t, P - t, t * I % P, (P - t) * I % P, t * Iinv % P, (P - t) * Iinv % P, t * v % P, t * t % P * v % P, t * t % P * v % P * I % P):
+                cands.append((u % P, v))
     lim = lambda x: ",".join(str((x >> (51 * i)) & (2**51 - 1)) if i < 4 else str(x >> 204) for i in range(5))
     ops = [{"op": "SqrtRatio", "args": ["r", "u", "v"], "init": {"r": "7,7,7,7,7", "u": lim(u), "v": lim(v)}} for u, v in cands]
     res = native.run_ops("field", ops)
